@@ -367,6 +367,9 @@ def g_conds(rng):
                     'include_ZPE': rng.random() < 0.5,
                     'method_name': rng.choice(['get_HoRT', 'get_SoR', 'get_CpoR', 'get_GoRT']),
                     'descriptors': S.gen_elements(rng, 1, 3, 5)})
+    if rng.random() < 0.5:
+        # one condition with a temperature vector (the empirical getters document array input)
+        out[-1]['T_arr'] = sorted(_r(rng, 150, 2500, 2) for _ in range(3))
     return out
 
 
@@ -1003,6 +1006,9 @@ def _plan_kwargs(name, params, cond, has_ts, probe_reaction):
             'x2_values': [cond['P'], 1.0]}
     if probe_reaction is not None:
         pool['reaction'] = probe_reaction
+    if cond.get('T_arr'):
+        import numpy as np
+        pool['T'] = np.array(cond['T_arr'], dtype=float)
     kw = {}
     names = {p[0] for p in params}
     for pname, kind, has_default in params:
